@@ -234,15 +234,20 @@ def run(ctx, host=None):
             # a paging loop = a while loop that builds a SELECT whose WHERE mentions a local that the loop body itself updates
             assigned_in_loop = {t.id for s in ast.walk(loop) if isinstance(s, ast.Assign) for t in s.targets if isinstance(t, ast.Name)}
             stmts = []
+            sel_of = {}
             for s in loop.body:
                 if isinstance(s, ast.Assign) and isinstance(s.value, ast.Call):
-                    inf0 = sql_statement(prog, s.value, f, s.lineno)
-                    if inf0 and inf0.get('op') == 'SELECT' and any({x.id for x in ast.walk(ast.parse(w, mode='eval')) if isinstance(x, ast.Name)} & assigned_in_loop for w in inf0['where']):
-                        stmts.append(s)
+                    # the SELECT may be bound to a local first (`stmt = select(...)`) or written inline (`rows = session.execute(select(...)).all()`)
+                    for c_ in [s.value] + [x for x in ast.walk(s.value) if isinstance(x, ast.Call) and x is not s.value]:
+                        inf0 = sql_statement(prog, c_, f, s.lineno)
+                        if inf0 and inf0.get('op') == 'SELECT' and any({x.id for x in ast.walk(ast.parse(w, mode='eval')) if isinstance(x, ast.Name)} & assigned_in_loop for w in inf0['where']):
+                            stmts.append(s)
+                            sel_of[id(s)] = c_
+                            break
             if not stmts:
                 continue
             npage += 1
-            info = sql_statement(prog, stmts[0].value, f, stmts[0].lineno)
+            info = sql_statement(prog, sel_of[id(stmts[0])], f, stmts[0].lineno)
             probs = []
             where = info['where'] if info else []
             pkvar = None
